@@ -94,6 +94,18 @@ def check_msg(d, conts, t2, data_as='list'):
             out.append(fail('roundtrip', f'{d!r} via {c}: {why}', type=d['type'], via=c))
         elif not (r == m.copy(time=t2)):
             out.append(fail('roundtrip-eq', f'{d!r} via {c}: decoded != original under ==', type=d['type'], via=c))
+    # two decodes of the same bytes are independent objects (no interning / caching of results)
+    try:
+        r1 = mido.Message.from_bytes(list(want), time=t2)
+        r2 = mido.Message.from_bytes(list(want), time=t2)
+        if r1 is r2:
+            out.append(fail('decode-shared', f'{d!r}: from_bytes returned the same object twice', type=d['type']))
+        else:
+            r1.time = 424242
+            if r2.time == 424242 and t2 != 424242:
+                out.append(fail('decode-shared', f'{d!r}: changing one decoded message changed another', type=d['type']))
+    except Exception as exc:  # noqa: BLE001
+        out.append(fail('decode-raises', f'{d!r} second decode: {exc!r}', type=d['type'], via='list', exc=exc_sig(exc)))
     # independent decoder agrees with what mido wrote
     try:
         rd = R.ref_decode(got, time=d['time'])
